@@ -77,14 +77,32 @@ impl FarmSim {
     fn check_weight_change(&mut self, what: &str, user: &str, lp: &str, pre: &WPre, added: u128, removed: u128, dur: u64, st: &mut Stats) -> Result<(), String> {
         let e = self.epoch();
         self.sync_weights(user, lp);
-        if self.mon.c07 && !self.mon.c10 && added > 0 {
+        if (self.mon.c06 || self.mon.c07) && !self.mon.c10 && removed > 0 {
+            // "no user is paid for an epoch ... after [the position's weight] stopped": LP that
+            // left a position must stop weighing from the next epoch
+            let tag = if self.mon.c06 { "C06" } else { "C07" };
+            let after = self.l.user_eff(user, lp, self.epoch() + 1);
+            let dec = pre.next_eff.saturating_sub(after);
+            if after > 0 && dec < removed {
+                return Err(format!(
+                    "[{tag}] {what}: {removed} LP left the position but the owner's weight in effect from the next epoch fell by only {dec} ({} -> {after}): rewards would still be paid for LP that is no longer staked",
+                    pre.next_eff
+                ));
+            }
+            if after > 0 && !self.l.has_open_in(user, lp) {
+                return Err(format!("[{tag}] {what}: {} has no open position in this LP token any more but keeps weight {after} from the next epoch", self.label(user)));
+            }
+            st.bump("weight stopped for LP that left a position");
+        }
+        if (self.mon.c06 || self.mon.c07) && !self.mon.c10 && added > 0 {
             // exact shares presuppose that a deposit's weight is credited to the position's owner
             let after = self.l.user_eff(user, lp, self.epoch() + 1);
             let (lo, hi) = weight_bounds(added, dur);
             let w_new = after.saturating_sub(pre.next_eff);
             if big(w_new) < lo || big(w_new) > hi {
                 return Err(format!(
-                    "[C07] {what}: adding {added} LP for {dur}s changed the owner's weight in effect from the next epoch by {w_new}; the weight curve gives [{lo}, {hi}] — rewards are shares of this weight"
+                    "[{}] {what}: adding {added} LP for {dur}s changed the owner's weight in effect from the next epoch by {w_new}; the weight curve gives [{lo}, {hi}] — rewards are shares of this weight",
+                    if self.mon.c07 { "C07" } else { "C06" }
                 ));
             }
         }
